@@ -18,6 +18,13 @@ ALL_KINDS = ('CallPairs', 'CallTransform', 'CallMatrix', 'CallPredictPairs', 'Ca
 
 
 def convert(e):
+  if e['ev'] == 'CallCalibrate':
+    # the event format of the generated calibration cases (ObsCalibrate!CalFails): optimality of the stored threshold
+    return {'ev': 'CalibrateCase', 'strategy': e['strategy'], 'b2': dy(float(e['beta']) * float(e['beta'])),
+            'min_rate': dy(float(e['min_rate'])), 'y': [int(v) for v in e['y']], 'exc': '', 'thr': dy(float(e['thr'])),
+            'd': dyv(np.asarray(e['d'], dtype=float)), 'via': 'suite', 'cls': e['cls'], 'method': e['method']}
+  if e['ev'] in ('CallConsPairs', 'CallConsChunks'):
+    return dict(e)
   ev = {'ev': e['ev'], 'method': e['method'], 'cls': e['cls'], 'L': dym(np.asarray(e['L'], dtype=float).reshape(len(e['L']), -1))}
   if e['ev'] == 'CallMatrix':
     ev['M'] = dym(np.asarray(e['M'], dtype=float))
@@ -40,6 +47,11 @@ def convert(e):
 def usable(e, kinds):
   if e['ev'] not in kinds:
     return False
+  if e['ev'] == 'CallCalibrate':
+    return e['strategy'] in ('accuracy', 'f_beta', 'max_tpr', 'max_tnr') and np.isfinite(np.asarray(e['d'], dtype=float)).all() \
+        and len(e['d']) == len(e['y']) and 1 in e['y'] and -1 in e['y']
+  if e['ev'] in ('CallConsPairs', 'CallConsChunks'):
+    return True
   L = np.asarray(e['L'], dtype=float)
   if L.ndim != 2 or L.shape[0] == 0:
     return False
@@ -55,7 +67,7 @@ def usable(e, kinds):
   return P.ndim == 3 and P.shape[2] == L.shape[1] and np.asarray(e['out']).ndim == 1
 
 
-def traces_from(events, kinds, cap_tests, rng):
+def traces_from(events, kinds, cap_tests, rng, spec=None):
   """group by test; at most PER_TEST events per test, spread over the kinds of call it made"""
   by = {}
   for e in events:
@@ -90,7 +102,7 @@ def traces_from(events, kinds, cap_tests, rng):
       for k in sorted(seen):
         if seen[k] and len(pick) < PER_TEST:
           pick.append(seen[k].pop(0))
-    out.append(({'suite': True, 'src': 'suite', 'test': t, 'est': pick[0]['cls']},
+    out.append(({'suite': True, 'src': 'suite', 'test': t, 'est': pick[0]['cls'], 'kinds': list(kinds), 'spec': list(spec) if spec else None},
                 {'est': pick[0]['cls'], 'test': t, 'events': [convert(x) for x in pick]}))
   return out
 
